@@ -5,6 +5,7 @@
     after it (accepted: `applyTx … = .ok post`; rejected: the world is unchanged) — for EVERY transaction, given only that
     transactions other than `ifAdd` / `ifRemove` are observed with `post` (whatever they do to the list, the ghost follows
     the observation there: those are judged by `C14`'s own frame clauses).
+  * `run_tracks`: along ANY history of the model the ghost list started at the first state is the stored registry of the last.
   * `regFrame_quiet`, `regCheck_quiet`: both clauses are quiet along the model: they fire only on code whose registry
     book-keeping differs from the model's.
   * `Witness`: kernel-evaluated C07-ff shape — stored list `[12, 11]` where the history's operations leave `[12, 10]`:
@@ -52,6 +53,44 @@ theorem regFrame_quiet (pre post : World) (env : Env) (sender : Nat) (funds : En
 
 theorem regCheck_quiet (s : Step) : regCheck s.pre.ifund.vamms s = [] := by
   simp [regCheck]
+
+/-- one observed transaction of a model history: block, sender, funds, transaction -/
+abbrev Obs := Env × Nat × Engine.Funds × Tx
+
+/-- the model's history: a rejected transaction leaves the world as it was -/
+def runW (w : World) : List Obs → World
+  | [] => w
+  | (env, s, f, tx) :: rest =>
+    match World.applyTx w env s f tx with
+    | .ok w' => runW w' rest
+    | .error _ => runW w rest
+
+/-- the ghost list folded along the same history, as the driver folds it along the observations -/
+def foldReg (g : List Nat) (w : World) : List Obs → List Nat
+  | [] => g
+  | (env, s, f, tx) :: rest =>
+    match World.applyTx w env s f tx with
+    | .ok w' => foldReg (next g w w' env s f true tx) w' rest
+    | .error _ => foldReg (next g w w env s f false tx) w rest
+
+/-- along ANY history of the model — every transaction kind, accepted or rejected — the ghost list started at the first
+    state is the stored registry of the last -/
+theorem run_tracks (w : World) (obs : List Obs) :
+    foldReg w.ifund.vamms w obs = (runW w obs).ifund.vamms := by
+  induction obs generalizing w with
+  | nil => rfl
+  | cons o rest ih =>
+    obtain ⟨env, s, f, tx⟩ := o
+    simp only [foldReg, runW]
+    cases h : World.applyTx w env s f tx with
+    | ok w' =>
+      simp only []
+      rw [next_tracks_ok w w' env s f tx h]
+      exact ih w'
+    | error e =>
+      simp only []
+      rw [next_rejected]
+      exact ih w
 
 namespace Witness
 
